@@ -561,6 +561,72 @@ theorem to_freq_is_to (f : List Rat → Rat) (s : Src) (fq : Float) (m : Method)
   · intro t h; simp only [downToFreq, h]
   · intro e h; simp only [downToFreq, h]
 
+/-! ### the Hz → ns conversion, exactly (deepening round D) -/
+
+example : targetOfFreqQ 15625 = some (.ok 64000) := by decide +kernel
+example : targetOfFreqQ (1000000000 / 3) = some (.ok 3) := by decide +kernel
+-- 1e9 / 0.3 = 3333333333.3333335 (double)
+example : truncRoundDouble 37 10 = 3 := by decide +kernel
+
+/-- An integer below 2^53 is a double: rounding leaves it alone. -/
+theorem truncRoundDouble_nat (s : Nat) (h1 : 1 ≤ s) (h2 : s < 2 ^ 53) : truncRoundDouble s 1 = s := by
+  unfold truncRoundDouble
+  rw [if_neg (by omega)]
+  simp only [Nat.div_one]
+  have hL : Nat.log2 (2 * s) ≤ 53 := by
+    have := (Nat.log2_lt (n := 2 * s) (k := 54) (by omega)).mpr (by omega)
+    omega
+  rw [if_pos hL]
+  unfold roundHalfEven
+  simp only [Nat.div_one, Nat.mod_one, Nat.mul_zero]
+  rw [if_pos (by omega)]
+  exact Nat.mul_div_cancel _ (Nat.two_pow_pos _)
+
+/-- Unit conversion, exact case: when `1e9 / frequency` is an integer number of nanoseconds below 2^53 (the frequency
+    is exactly `1e9 / s` Hz), `int(1e9 / frequency)` is that integer — no rounding, no truncation loss. -/
+theorem step_of_exact_freq (fq : Rat) (s : Nat) (h1 : 1 ≤ s) (h2 : s < 2 ^ 53) (hq : fq = 1000000000 / (s : Rat)) :
+    targetOfFreqQ fq = some (.ok (s : Int)) := by
+  have hs : (0 : Rat) < (s : Rat) := by exact_mod_cast h1
+  have hpos : 0 < fq := by rw [hq]; exact div_pos (by norm_num) hs
+  have hquot : (1000000000 : Rat) / fq = (s : Rat) := by
+    rw [hq, div_div_eq_mul_div]; exact mul_div_cancel_left₀ _ (by norm_num)
+  unfold targetOfFreqQ
+  rw [if_neg (ne_of_gt hpos)]
+  simp only [if_neg (not_lt.mpr (le_of_lt hpos)), hquot]
+  have hlt : ¬ ((s : Rat) ≥ 4611686018427387904) := by
+    have : (s : Rat) < 2 ^ 53 := by exact_mod_cast h2
+    norm_num at this ⊢
+    linarith
+  rw [if_neg hlt]
+  have hn : ((s : Rat)).num.toNat = s := by simp
+  have hd : ((s : Rat)).den = 1 := by simp
+  rw [hn, hd, truncRoundDouble_nat s h1 h2]
+
+/-- The property's "in particular", at the level of the FREQUENCY argument: when the frequency handed to
+    `downsampled_to` is exactly `f_s / k = 1e9 / (k·dt)` Hz (period `k·dt` below 2^53 ns) and the channel does not hold a
+    whole number of blocks, `downsampled_to(frequency)` returns the samples of `downsampled_by(k)` (any method,
+    `where="center"`); for a whole number of blocks see `to_multiple_eq_by_dropLast` (finding F3). -/
+theorem to_freq_eq_by (f : List Rat → Rat) (c : Cont) (k : Nat) (m : Method) (fq : Rat) (hdt : 0 < c.dt) (hk : 0 < k)
+    (hn : k ≤ c.data.length) (hnm : c.data.length % k ≠ 0) (hs : (k : Int) * c.dt < 2 ^ 53)
+    (hfq : fq = 1000000000 / (((k : Int) * c.dt : Int) : Rat)) :
+    ∃ r, downBy f (.cont c) k = .ok r ∧
+      downToFreqQ f (.cont c) fq (some m) (some true) = some (.ok r.samples) := by
+  obtain ⟨r, hr, hto⟩ := to_eq_by f c k m hdt hk hn hnm
+  refine ⟨r, hr, ?_⟩
+  have hpos : 0 < (k : Int) * c.dt := Int.mul_pos (by exact_mod_cast hk) hdt
+  have hcast : ((((k : Int) * c.dt).toNat : Nat) : Int) = (k : Int) * c.dt := Int.toNat_of_nonneg (by omega)
+  have hr' : ((((k : Int) * c.dt).toNat : Nat) : Rat) = (((k : Int) * c.dt : Int) : Rat) := by
+    rw [← Int.cast_natCast (R := Rat) ((k : Int) * c.dt).toNat, hcast]
+  have hstep := step_of_exact_freq fq ((k : Int) * c.dt).toNat (by omega) (by omega)
+    (by rw [hfq, hr'])
+  unfold downToFreqQ
+  simp only [hstep, hcast]
+  rw [hto]
+
+/-- Non-vacuity: 23 samples at 78.125 kHz (`dt = 12800` ns) downsampled to 15625 Hz = `f_s / 5`. -/
+example : downToFreqQ Reduce.mean.apply (.cont ⟨0, 12800, (List.range 23).map fun (i : Nat) => (i : Rat)⟩) 15625 (some .safe) (some true)
+    = some (.ok [(25600, 2), (89600, 7), (153600, 12), (217600, 17)]) := by decide +kernel
+
 /-! ## `downsampled_like` (`pw = false` is the code as it is; `pw = true` the proposed repair of F9) -/
 
 /-- For a reference with strictly increasing timestamps the two returned channels carry identical
